@@ -80,8 +80,8 @@ func (p *Prog) forkJoinConfined(owner *types.Named, fv *types.Var) (string, bool
 		return f
 	}
 	ownIndex := func(ia *ssa.IndexAddr, w *ssa.Function) bool {
-		prm, ok := resolve(ia.Index).(*ssa.Parameter)
-		return ok && prm.Parent() == w
+		prm, _ := ownIndexOf(ia.Index, w)
+		return prm != nil
 	}
 	afterJoin := func(at ssa.Instruction) bool {
 		if !p.onlyWithin(outermost(at.Parent()), driver, 0) {
@@ -158,4 +158,47 @@ func sortedStrings(in []string) []string {
 		}
 	}
 	return out
+}
+
+// ownIndexOf: the index value is what the goroutine's function w was handed for itself: one of w's parameters, or a
+// field of a by-value struct parameter (conf.idx). It returns the parameter and, in the second case, the field.
+func ownIndexOf(idx ssa.Value, w *ssa.Function) (*ssa.Parameter, *types.Var) {
+	v := resolve(idx)
+	if prm, ok := v.(*ssa.Parameter); ok && prm.Parent() == w {
+		return prm, nil
+	}
+	if fx, ok := v.(*ssa.Field); ok {
+		if prm, ok := resolve(fx.X).(*ssa.Parameter); ok && prm.Parent() == w {
+			return prm, fieldOfField(fx)
+		}
+	}
+	if ld, ok := v.(*ssa.UnOp); ok && ld.Op == token.MUL {
+		if fa, ok := ld.X.(*ssa.FieldAddr); ok {
+			if cell, ok := fa.X.(*ssa.Alloc); ok {
+				// a by-value struct parameter spilled to a cell: exactly one store, of the parameter
+				var src ssa.Value
+				n := 0
+				for _, ref := range *cell.Referrers() {
+					if st, ok := ref.(*ssa.Store); ok && st.Addr == ssa.Value(cell) {
+						src = st.Val
+						n++
+					}
+				}
+				if prm, ok := src.(*ssa.Parameter); ok && n == 1 && prm.Parent() == w {
+					// and no store into that field of the copy
+					for _, ref := range *cell.Referrers() {
+						if fa2, ok := ref.(*ssa.FieldAddr); ok && fieldOf(fa2) == fieldOf(fa) {
+							for _, r2 := range *fa2.Referrers() {
+								if st, ok := r2.(*ssa.Store); ok && st.Addr == ssa.Value(fa2) {
+									return nil, nil
+								}
+							}
+						}
+					}
+					return prm, fieldOf(fa)
+				}
+			}
+		}
+	}
+	return nil, nil
 }
